@@ -79,6 +79,81 @@ impl Drop for Armed {
     }
 }
 
+// ------------------------------------------------------------------ a target type that asks for size hints
+/// Accepts anything (keys of any kind included) and calls `size_hint()` of every SeqAccess / MapAccess before and
+/// after every element -- serde's own `Vec<T>` / `HashMap<K, V>` / untagged-enum buffering do that, the dynamic
+/// targets of the other families (and serde_json::Value) never do, so `array_len` / `object_len` / `fields_len`
+/// behind the hints were unreached.
+struct Hint;
+
+struct HintV;
+
+impl<'de> serde::de::Visitor<'de> for HintV {
+    type Value = Hint;
+    fn expecting(&self, f: &mut std::fmt::Formatter) -> std::fmt::Result {
+        f.write_str("anything")
+    }
+    fn visit_bool<E>(self, _: bool) -> Result<Hint, E> {
+        Ok(Hint)
+    }
+    fn visit_i64<E>(self, _: i64) -> Result<Hint, E> {
+        Ok(Hint)
+    }
+    fn visit_u64<E>(self, _: u64) -> Result<Hint, E> {
+        Ok(Hint)
+    }
+    fn visit_f64<E>(self, _: f64) -> Result<Hint, E> {
+        Ok(Hint)
+    }
+    fn visit_str<E>(self, s: &str) -> Result<Hint, E> {
+        let _ = valid(s);
+        Ok(Hint)
+    }
+    fn visit_bytes<E>(self, _: &[u8]) -> Result<Hint, E> {
+        Ok(Hint)
+    }
+    fn visit_none<E>(self) -> Result<Hint, E> {
+        Ok(Hint)
+    }
+    fn visit_unit<E>(self) -> Result<Hint, E> {
+        Ok(Hint)
+    }
+    fn visit_some<D: serde::Deserializer<'de>>(self, d: D) -> Result<Hint, D::Error> {
+        <Hint as serde::Deserialize>::deserialize(d)
+    }
+    fn visit_newtype_struct<D: serde::Deserializer<'de>>(self, d: D) -> Result<Hint, D::Error> {
+        <Hint as serde::Deserialize>::deserialize(d)
+    }
+    fn visit_seq<A: serde::de::SeqAccess<'de>>(self, mut seq: A) -> Result<Hint, A::Error> {
+        loop {
+            let _ = seq.size_hint();
+            if seq.next_element::<Hint>()?.is_none() {
+                break;
+            }
+        }
+        let _ = seq.size_hint();
+        Ok(Hint)
+    }
+    fn visit_map<A: serde::de::MapAccess<'de>>(self, mut map: A) -> Result<Hint, A::Error> {
+        loop {
+            let _ = map.size_hint();
+            if map.next_key::<Hint>()?.is_none() {
+                break;
+            }
+            let _ = map.size_hint();
+            let _ = map.next_value::<Hint>()?;
+        }
+        let _ = map.size_hint();
+        Ok(Hint)
+    }
+}
+
+impl<'de> serde::Deserialize<'de> for Hint {
+    fn deserialize<D: serde::Deserializer<'de>>(d: D) -> Result<Hint, D::Error> {
+        d.deserialize_any(HintV)
+    }
+}
+
 // ------------------------------------------------------------------ helpers
 const OUT_CAP: usize = 1 << 20;
 
@@ -330,6 +405,9 @@ fn dom_root<E: Encoding + Clone>(tape: &TextTape, root: ObjectReader<E>, enc: E,
     }
     let _ = root.deserialize::<IgnoredAny>().is_ok();
     let _ = root.deserialize::<serde_json::Value>().is_ok();
+    let _ = root.deserialize::<Hint>().is_ok();
+    let _ = root.deserialize::<Vec<Hint>>().is_ok();
+    let _ = root.deserialize::<HashMap<String, Vec<Hint>>>().is_ok();
     let _ = TextDeserializer::from_reader(&root).deserialize::<serde_json::Value>().is_ok();
     let _ = TextDeserializer::from_encoded_tape(tape, enc).deserialize::<serde_json::Value>().is_ok();
     None
@@ -606,6 +684,12 @@ fn binapi(data: &[u8]) -> String {
         let mut b = BinaryDeserializerBuilder::with_flavor(fl);
         b.on_failed_resolve(strat);
         de_ok += b.from_slice(data, &res).deserialize::<serde_json::Value>().is_ok() as usize;
+        let mut b = BinaryDeserializerBuilder::with_flavor(fl);
+        b.on_failed_resolve(FailedResolveStrategy::Stringify);
+        de_ok += b.from_slice(data, &res).deserialize::<Hint>().is_ok() as usize;
+        let mut b = BinaryDeserializerBuilder::with_flavor(fl);
+        b.on_failed_resolve(FailedResolveStrategy::Stringify);
+        de_ok += b.from_reader(data, &res).deserialize::<Hint>().is_ok() as usize;
     }
     if tape_ok {
         let mut b = BinaryDeserializerBuilder::with_flavor(fl);
@@ -614,6 +698,10 @@ fn binapi(data: &[u8]) -> String {
         de_ok += d.deserialize::<IgnoredAny>().is_ok() as usize;
         d.on_failed_resolve(FailedResolveStrategy::Stringify);
         de_ok += d.deserialize::<serde_json::Value>().is_ok() as usize;
+        de_ok += d.deserialize::<Hint>().is_ok() as usize;
+        de_ok += d.deserialize::<HashMap<String, Vec<Hint>>>().is_ok() as usize;
+        d.on_failed_resolve(FailedResolveStrategy::Ignore);
+        de_ok += d.deserialize::<Hint>().is_ok() as usize;
     }
     {
         let mut b = BinaryDeserializerBuilder::with_flavor(fl);
